@@ -188,6 +188,22 @@ def scenario(name, root):
             finally:
                 idx.close()
             assert not res.failed
+        elif name in ("store_to_store_fetchlike", "store_to_store_pushlike"):
+            # the listings are looked up first in the *destination* itself, as index/fetch.py (cache_odb=cache.odb) and
+            # index/push.py (cache_odb=data.odb, with the remote's existence index) call transfer()
+            from dvc_data.hashfile.db.index import ObjectDBIndex
+
+            a = HashFileDB(fs, os.path.join(root, "srcstore"))
+            b = LocalHashFileDB(fs, os.path.join(root, "odb"), state=state)
+            with open(os.path.join(root, "request.json")) as f:
+                ids = json.load(f)
+            idx = ObjectDBIndex(os.path.join(root, "remote-index"), "dest") if name.endswith("pushlike") else None
+            try:
+                res = transfer(a, b, {HashInfo("md5", o) for o in ids}, dest_index=idx, cache_odb=b)
+            finally:
+                if idx is not None:
+                    idx.close()
+            assert not res.failed
         elif name == "stage_transfer_legacy":
             odb = LocalHashFileDB(fs, os.path.join(root, "odb"), state=state, hash_name="md5-dos2unix")
             staging, meta, obj = build(odb, src, fs, "md5-dos2unix")
